@@ -11,10 +11,9 @@
 // fails when the schedule says so, otherwise sets pod.spec.nodeName. `BindDoneStatusLost` fails the
 // BindRequest status patch instead.
 //
-// Input  (-in): ndjson schedules {"id","lim","req":{"p1":100,..},"present":["p1",..],"steps":[{"n","p","out"}]}
-//
-//	as exported by TLC from spec/Handoff.tla; or -random N -seed S -len K -pods P.
-//
+// Input (-in): ndjson schedules {"id","lim","req":{"p1":100,..},"present":["p1",..],"steps":[{"n","p","out"}]}
+// as exported by TLC from spec/Handoff.tla (a step that is not enabled in the real state is skipped and
+// logged with skip=1); or -random N -seed S -len K -pods P: seeded random schedules over the enabled steps.
 // Output (-out): ndjson trace: a Scenario line, then one line per step with the projection of the real
 // stores (`st`), of the real snapshot (`snap`, cycles only) and of the reconcile result (`rec`).
 // Integers and strings only; -1 = nil backoffLimit; quantities in centi-GPU / milli-CPU.
